@@ -192,7 +192,7 @@ def check_line(ctx: Ctx, ln) -> None:
 
 
 PARTS: list[Part] = [
-    hyp_part("sections", strat_sections, check_section, {"quick": 250, "thorough": 4000},
+    hyp_part("sections", strat_sections, check_section, {"quick": 500, "thorough": 4000},
              {"quick": 6, "thorough": 16}),
     hyp_part("lines", strat_lines, check_line, {"quick": 2500, "thorough": 40000},
              {"quick": 2, "thorough": 16}),
